@@ -1,5 +1,5 @@
 PROP = {
-    "thm": ["Umya.Thm.C04", "Umya.Thm.C04Bytes", "Umya.Thm.C04Fix"],
+    "thm": ["Umya.Thm.C04", "Umya.Thm.C04Bytes", "Umya.Thm.C04Fix", "Umya.Thm.C04Edit"],
     "harness": "c04",
     "level": "proof",
     "stateful": True,
@@ -14,7 +14,13 @@ PROP = {
                   "validations, conditional formatting WITH its dxf table (the table does not grow on the second save), sheet list, merges, comments, hyperlinks, defined names. "
                   "C04_workbook_fixpoint: for a projection with any numbers of sheets / cells / style components / annotations, resave b = some g1 => g1 = normBook b (explicit), "
                   "resave g1 = some g1, the hypotheses hold for g1 again, and the getter-level view of g1 is that of b. C04_edit_local_book: an edit of one cell that keeps it written "
-                  "and sets a definite value (it commutes with resolving a lazy value) commutes with save+load, everything else unchanged. C04_save_pure_book: one save+load does not depend on the save environment (authors hash-set order, first "
+                  "and sets a definite value (it commutes with resolving a lazy value) commutes with save+load, everything else unchanged. "
+                  "Umya/Thm/C04Edit.lean, edits that change WHICH cells exist: C04_edit_local_book_create (a written cell put at a coordinate the sheet has no cell at, anywhere in the collection, "
+                  "with get_cell_mut's row record: normBook (create b) = create' (normBook b), so resave commutes; other sheets untouched; the sheet reads one cell more, the new coordinate reads the "
+                  "resolved new cell, every other coordinate reads what it read (lookup by coordinate); every old row record stays at its place, at most one default record is added; everything else equal), "
+                  "C04_edit_local_book_delete (remove_cell: the coordinate reads nothing, every other reads as before, all records and styles equal), C04_edit_local_book_blank (an edit leaving the cell blank and "
+                  "unstyled = remove_cell after save+load), C04_edit_new_style_local (on C05's set_style model: replacing one cell's style by ANY style, new ones included, every other cell reads through its "
+                  "(possibly renumbered) xf index the effective formatting of its own style, with and without the edit). C04_save_pure_book: one save+load does not depend on the save environment (authors hash-set order, first "
                   "relationship id, writer flavour). The older corollaries stay (attribute channel over n generations, C04_bytes_resave_stable at character level). "
                   "Tie and the non-modelled part: corpus files and generated annotated workbooks are taken through three load/save generations with the FULL public-getter view compared "
                   "(gen1 == gen2 == gen3, orig == gen1, part lists of two saves equal, single-cell edit locality); for generated workbooks (with values whose normal form is not the "
@@ -36,7 +42,8 @@ PROP = {
                         "C04_fixpoint_sheet_list", "C04_fixpoint_merges", "C04_fixpoint_comments", "C04_fixpoint_hyperlinks", "C04_fixpoint_defined_names",
                         "C04_fixpoint_string_item", "C04_fixpoint_cell", "C04_fixpoint_cell_store",
                         "C04_workbook_fixpoint", "C04_workbook_resave_defined", "C04_workbook_generations",
-                        "C04_save_pure_book", "C04_save_pure_cells", "C04_edit_local_book", "C04_edit_string_indices"],
+                        "C04_save_pure_book", "C04_save_pure_cells", "C04_edit_local_book", "C04_edit_string_indices",
+                        "C04_edit_local_book_create", "C04_edit_local_book_delete", "C04_edit_local_book_blank", "C04_edit_new_style_local"],
     "rule": "case = a generated annotated workbook (per-case seed; values with a non-identity normal form added through the setters: twist.* counters) or a corpus file; "
             "three load/save generations, a second save of generation 1, one single-cell edit; attr requests = one per sheet name and external hyperlink target; "
             "norm requests (generated workbooks; once original -> generation 1, once generation 1 -> generation 2) = per sheet one each for hf / margins / views / tab / cells, up to 8 fonts, up to 12 rows and 12 columns. "
@@ -54,8 +61,12 @@ PROP = {
                         "formatting + dxf table, sheet list, merges, comments (authors), hyperlinks",
                         "harness oracle only (gen1 == gen2 == gen3 on the full getter view, no model): drawings, charts, images, theme, pivot tables / caches, tables, VBA and other raw parts, printer-settings "
                         "blobs, rich-text comment bodies and their shapes, auto-filter columns, column / row style indices resolved through the style tables, document properties",
-                        "C04_edit_local_book covers edits that keep the cell written (value / formula / style on a non-blank or styled cell); an edit that creates a cell is covered by position in C04_edit_local "
-                        "and by the harness (edit-not-local oracle)",
+                        "cell-creating / removing / blanking edits are proved on the cell lists and row records of the projection (C04Edit.lean) and tied by c04 edit requests (kept coordinates after reload, row records after "
+                        "get_cell_mut); NOT in the model: the column record get_cell_mut also creates (harness edit-not-local oracle only), the <dimension ref> attribute (not a field of the projection: no separate "
+                        "statement, it is a function of the cell list), the shared-string table under a creating edit beyond C04_edit_string_indices (one more cell written onto a table only appends; a cell "
+                        "inserted in the middle can reorder the items written after it: no theorem on the table as a set), rows that have neither cells nor attributes after a delete (not written: BookP lists the rows that persist)",
+                        "C04_edit_new_style_local is a statement on the C05 style-sheet model (indices into the tables, effective formatting); that the indices of other cells can really move is not exhibited by a "
+                        "proved example; in c04 the new-style edit is checked by the harness only (edit-not-local on the full view + every other cell's style object unchanged), the model side is C05's own tie",
                         "the composition bytes -> tree -> model value is per part (C02_bytes_parse / C04_bytes_resave_stable for trees in normal form; C02/C03 validate the rest per file)"],
     "technique": "Lean 4: one generic fixed-point lemma for codecs with explicit idempotent normal forms, instantiated with every codec model (closure of the hypotheses under norm proved), composed into a "
                  "workbook-level theorem + generation-chain differential check with a per-family norm tie on generated files",
